@@ -6,7 +6,7 @@
     pyIndex           Python `tuple[i]` (IndexError outside -n ≤ i < n)
     validateMerge     cubed/core/ops.py : merge_chunks            (two ValueErrors, then normalize_chunks)
     validateSqueeze   cubed/core/ops.py : squeeze                 (`any(x.shape[i] != 1 ...)`, then validate_axis)
-    validateRepeat    cubed/array_api/manipulation_functions.py : repeat
+    validateRepeat    cubed/array_api/manipulation_functions.py : repeat   (validateRepeatOld = before fix cfb5bf3)
     validateConcat    … : concat          (non-empty, validate_axis, shapes, chunk sizes along the axis)
     validateStack     … : stack           (non-empty, equal shapes, validate_axis; stackUnify = the rechunk of the others
                       to the first's chunks; validateStackOld = before fix f3856f5: the two TODOs)
@@ -135,10 +135,10 @@ structure RepeatP where
   axis : Int
 deriving Repr
 
-/-- `repeat(x, repeats, axis=axis)` for an int axis.  The code never normalises `axis`: `x.shape[axis]` raises
-IndexError out of range, and for `axis = -1` the expression `x.shape[axis + 1:]` is the whole shape, so the
-declared shape has too many dimensions and `normalize_chunks` refuses (ValueError). -/
-def validateRepeat (p : RepeatP) : Res :=
+/-- OLD `repeat(x, repeats, axis=axis)` (before `fix:` cfb5bf3) for an int axis.  The code never normalised `axis`:
+`x.shape[axis]` raised IndexError out of range, and for `axis = -1` the expression `x.shape[axis + 1:]` was the whole
+shape, so the declared shape had too many dimensions and `normalize_chunks` refused (ValueError). -/
+def validateRepeatOld (p : RepeatP) : Res :=
   match p.repeats with
   | .other => .error .ValueError
   | .int r =>
@@ -149,11 +149,23 @@ def validateRepeat (p : RepeatP) : Res :=
       else if r < 0 then .error .ValueError
       else .ok ()
 
+/-- `repeat` now: `repeats` must be a Python int (ValueError), non-negative (ValueError), then
+`axis = validate_axis(axis, x.ndim)` (AxisError).  `repeats == 0` returns an empty array without any blockwise op. -/
+def validateRepeat (p : RepeatP) : Res :=
+  match p.repeats with
+  | .other => .error .ValueError
+  | .int r =>
+    if r < 0 then .error .ValueError else
+    match validateAxis p.axis p.shape.length with
+    | .error e => .error e
+    | .ok _ => .ok ()
+
 /-- `repeat.back_key_function` along the axis: `none` = ZeroDivisionError. -/
 def repeatKey (r bi : Nat) : Option Nat := if r = 0 then none else some (bi / r)
 
-/-- the coordinate computed at axis position `i`: `bi // repeats if i == axis else bi` — the comparison uses the
-*un-normalised* `axis`, so for a negative axis no position matches. -/
+/-- the coordinate computed at axis position `i`: `bi // repeats if i == axis else bi`, where `axis` is whatever the
+closure holds: the normalised axis now, the *un-normalised* one in the old variant (for a negative axis no position
+matched). -/
 def repeatKeyAt (axis : Int) (i r bi : Nat) : Option Nat :=
   if (i : Int) = axis then repeatKey r bi else some bi
 
